@@ -114,6 +114,72 @@ pub fn parser_message(bytes: &[u8], a: Fmt, mode: &Mode) -> Option<String> {
     }
 }
 
+/// YAML through the reader route: xt renders libyaml's problem report itself.
+/// The text must carry libyaml's description(s) and the position libyaml gave:
+/// line and column (1-based, as every message of this program and of the parser
+/// crate counts them) or, for reader-level problems that have no mark, the byte
+/// offset. The wording around the numbers is not prescribed.
+pub fn yaml_reader_message_check(bytes: &[u8], msg: &str) -> Option<Result<(), String>> {
+    let s = std::str::from_utf8(bytes).ok()?;
+    // a leading BOM is removed by xt's re-encoder before libyaml sees the stream
+    if s.starts_with('\u{feff}') || xt::verif::yaml_detect_encoding(&bytes[..bytes.len().min(4)]) != "utf-8" {
+        return None;
+    }
+    let p = crate::rd_yaml::libyaml_problem(bytes)?;
+    let numbers = |t: &str| -> Vec<u64> {
+        let mut out = vec![];
+        let mut cur = String::new();
+        for ch in t.chars().chain(std::iter::once(' ')) {
+            if ch.is_ascii_digit() {
+                cur.push(ch);
+            } else if !cur.is_empty() {
+                if let Ok(n) = cur.parse() {
+                    out.push(n);
+                }
+                cur.clear();
+            }
+        }
+        out
+    };
+    let at = match msg.find(p.problem.as_str()) {
+        Some(i) => i,
+        None => return Some(Err(format!("the error text {:?} does not carry the parser's message {:?}", msg, p.problem))),
+    };
+    let after_problem = &msg[at + p.problem.len()..];
+    let (own, rest) = match p.context.as_deref().and_then(|c| after_problem.find(c).map(|i| (i, c.len()))) {
+        Some((i, l)) => (&after_problem[..i], Some(&after_problem[i + l..])),
+        None => (after_problem, None),
+    };
+    let own_numbers = numbers(own);
+    let ok = if p.line != 0 || p.column != 0 {
+        own_numbers.windows(2).any(|w| w[0] == p.line + 1 && w[1] == p.column + 1)
+    } else {
+        let off = if p.index > 0 { p.index } else { p.offset };
+        own_numbers.contains(&off)
+    };
+    if !ok {
+        return Some(Err(format!(
+            "the error text {:?} does not carry the position the parser gave for {:?} (line {} column {}, byte {})",
+            msg,
+            p.problem,
+            p.line + 1,
+            p.column + 1,
+            if p.index > 0 { p.index } else { p.offset }
+        )));
+    }
+    if let Some(c) = &p.context {
+        match rest {
+            None => return Some(Err(format!("the error text {:?} does not carry the parser's context {:?}", msg, c))),
+            Some(rest) => {
+                if (p.context_line != 0 || p.context_column != 0) && !numbers(rest).windows(2).any(|w| w[0] == p.context_line + 1 && w[1] == p.context_column + 1) {
+                    return Some(Err(format!("the error text {:?} does not carry the position of the parser's context {:?} (line {} column {})", msg, c, p.context_line + 1, p.context_column + 1)));
+                }
+            }
+        }
+    }
+    Some(Ok(()))
+}
+
 // ---------------------------------------------------------------------------
 // Family 1: syntax errors
 
@@ -219,6 +285,13 @@ pub fn check_syntax(bytes: &[u8], a: Fmt, mode: &Mode, rec: &mut Recorder) -> Re
         let o = run_mode(bytes, mode, Some(a), *to);
         match o.verdict {
             Verdict::Ok => {
+                // the YAML parser xt uses is libyaml; what libyaml itself rejects
+                // cannot have been translated
+                if a == Fmt::Yaml && std::str::from_utf8(bytes).is_ok() && xt::verif::yaml_detect_encoding(&bytes[..bytes.len().min(4)]) == "utf-8" {
+                    if let Some(p) = crate::rd_yaml::libyaml_problem(bytes) {
+                        return Err(format!("[yaml {} -> {}] the YAML parser rejects this input ({:?} at line {} column {}), but the translation reported success (output {:?})", mode.class(), to.name(), p.problem, p.line + 1, p.column + 1, brief_bytes(&o.out)));
+                    }
+                }
                 rec.class("syntax:accepted_by_xt");
                 return Ok(());
             }
@@ -249,6 +322,12 @@ pub fn check_syntax(bytes: &[u8], a: Fmt, mode: &Mode, rec: &mut Recorder) -> Re
             return Err(format!("[{} {}] the error text {:?} is not the parser's own message {:?}", a.name(), mode.class(), texts[0].1, msg));
         }
         rec.class("syntax:matches_parser_message");
+    }
+    if a == Fmt::Yaml && matches!(mode, Mode::Reader(_)) {
+        if let Some(r) = yaml_reader_message_check(bytes, &texts[0].1) {
+            r.map_err(|m| format!("[yaml {}] {}", mode.class(), m))?;
+            rec.class("syntax:yaml_reader_position_checked");
+        }
     }
     rec.count(Some(hash_bytes(&[bytes, a.name().as_bytes(), mode.class().as_bytes()])));
     rec.class(&format!("syntax:{}", a.name()));
